@@ -650,3 +650,45 @@ def history_op(rng, name: str):
         m["target_version"] = rng.choice([17, 99])   # below the node version / outside the supported range
         return {"h": name, "model": m}
     raise ValueError(name)
+
+
+GENS = {"reshape_reshape": g_reshape_reshape, "flatten": g_flatten, "pad_conv": g_pad_conv, "materialize": g_materialize,
+        "layernorm": g_layernorm, "rmsnorm": g_rmsnorm, "basic": g_basic, "fold": g_fold, "convert": g_convert}
+SETFAIL_FOR = {"reshape_reshape": ["reshape"], "pad_conv": ["pad_nonspatial", "pad_negative", "pad_autopad"], "layernorm": ["ln"],
+               "rmsnorm": ["rms"]}
+
+
+def setfail_op(rng, c):
+    if c == "reshape":
+        m = {"api": "rewrite", "rules": "default", "template": "reshape_reshape", "params": g_reshape_setfail(rng)}
+    elif c.startswith("pad_"):
+        m = {"api": "rewrite", "rules": "default", "template": "pad_conv", "params": g_pad_conv(rng, c[4:])}
+    elif c == "ln":
+        m = {"api": "rewrite", "rules": "layernorm", "template": "layernorm", "params": g_layernorm(rng, "setfail")}
+    else:
+        m = {"api": "rewrite", "rules": "rmsnorm", "template": "rmsnorm", "params": g_rmsnorm(rng, "setfail")}
+    return {"h": "rw_setfail", "case": c, "model": m}
+
+
+def sibling_history(rng, target):
+    """Operations on *other instances of what the target exercises*: same api + template (hence the same rule / pass
+    objects) with other parameters, plus every check()-stores-then-fails variant of that rule."""
+    if target["api"] == "script":
+        k = target["script"]["kind"]
+        return [{"h": "tr_ok", "script": {"kind": k, "nlive": 3 + rng.randrange(4), "gseed": rng.randrange(1 << 30)}},
+                {"h": "tr_refused", "which": rng.randrange(len(REFUSED))},
+                {"h": "tr_ok", "script": {"kind": k, "nlive": target["script"]["nlive"], "gseed": rng.randrange(1 << 30)}}]
+    t = target["template"]
+    hname = {"optimize": "opt_ok", "rewrite": "rw_ok", "fold": "fold_ok", "convert": "cv_ok"}[target["api"]]
+    out = []
+    for _ in range(2):
+        m = dict(target)
+        m["params"] = GENS[t](rng)
+        if target["api"] == "convert":
+            m["target_version"] = m["params"]["target"]
+        out.append({"h": hname, "model": m})
+    for c in SETFAIL_FOR.get(t, []):
+        out.insert(1, setfail_op(rng, c))
+    if t == "reshape_reshape":
+        out.append(history_op(rng, "rw_check_raise"))
+    return out[:8]
